@@ -152,6 +152,14 @@ def generate(rnd, tier):
         obj = c11.gen_source(rnd, "large" if big else rnd.choice(["tiny", "small", "small"]), False, allow_extreme=False)
         obj["kind"] = "scores"
     obj["subclass"] = rnd.random() < 0.1
+    offset = 0
+    if not is_group and obj.get("dtype", "float64") in ("float64", "int64") and rnd.random() < 0.1:
+        # scores sitting on a large offset (timestamps, raw counts, log-likelihoods): metrics such as thresholds and
+        # mean scores are then large compared with their bootstrap spread
+        offset = rnd.choice([-1, 1]) * 10 ** rnd.randint(4, 7)
+        for key in ("pos", "neg"):
+            obj[key] = [v + offset if obj.get("dtype") == "int64" else float(v) + float(offset) for v in obj[key]]
+        obj["offset"] = offset
     fault_free = rnd.random() < 0.34
     ops = []
     for _ in range(rnd.randint(1, 5)):
@@ -163,6 +171,12 @@ def generate(rnd, tier):
             metric = {"name": "extra_metric", "kwargs": {"threshold": c12.gen_thr(rnd) if rnd.random() < 0.7 else {"shape": [], "data": [0.0]}}}
             if metric["kwargs"]["threshold"]["shape"] == [0]:
                 metric["kwargs"]["threshold"] = {"shape": [2], "data": [0.0, 1.0]}
+        if offset and rnd.random() < 0.6:
+            if rnd.random() < 0.5:
+                nm = rnd.choice(THR_AT)
+                metric = {"name": nm, "kwargs": {nm.split("_")[-1]: {"shape": [], "data": [round(rnd.uniform(0.05, 0.95), 2)]}}}
+            else:
+                metric = {"callable": "mean_pos", "kwargs": {}}
         sampler = gen_sampler(rnd, is_group, big)
         if is_group and big and rnd.random() < 0.5:
             # the method-resolution interplay: "dynamic" is resolved differently by Scores and GroupScores (by_group forces
